@@ -210,6 +210,7 @@ func checkCmd(w *world, prop, tier string, seed int, opts *runOpts, expectMode b
 	perSolver := map[string]int{}
 	var solverMs int64
 	paths := 0
+	pathsFeasible, pathsInfeasible, agreedAll := 0, 0, 0
 	vacuous := 0
 	skipped := 0
 	for _, j := range jobs {
@@ -235,13 +236,34 @@ func checkCmd(w *world, prop, tier string, seed int, opts *runOpts, expectMode b
 			for _, a := range r.Assumed {
 				assumedSet[a] = true
 			}
+			feasible, infeasible := 0, 0
 			for _, o := range r.Obls {
+				if o.Kind == "path-cover" {
+					if o.Status == "infeasible-path" {
+						infeasible++
+					} else {
+						feasible++
+					}
+				}
+			}
+			pathsFeasible += feasible
+			pathsInfeasible += infeasible
+			if feasible == 0 && infeasible > 0 {
+				notGen = append(notGen, fmt.Sprintf("%s [%s]: none of its %d paths is feasible under the contract (vacuous verification)", label, r.Mode, infeasible))
+			}
+			for _, o := range r.Obls {
+				if o.Kind == "path-cover" {
+					continue
+				}
 				if o.Kind == "cover" {
 					if o.Status == "vacuous" {
 						vacuous++
 						notGen = append(notGen, fmt.Sprintf("%s [%s]: precondition unsatisfiable (vacuous contract)", label, r.Mode))
 					}
 					continue
+				}
+				if len(o.Agreed) > 0 {
+					agreedAll++
 				}
 				all = append(all, o)
 				perSolver[o.Solver]++
@@ -401,6 +423,9 @@ func checkCmd(w *world, prop, tier string, seed int, opts *runOpts, expectMode b
 			"known_finding_obligations":  knownHits,
 			"not_generated":              append(notGen, missing...),
 			"vacuous_preconditions":      vacuous,
+			"thorough_paths_feasible":    pathsFeasible,
+			"thorough_paths_infeasible":  pathsInfeasible,
+			"thorough_obligations_confirmed_by_a_second_solver": agreedAll,
 			"variant_methods_not_offered": skipped,
 			"expected_keys":              len(counts),
 			"contract_mirror_notes":      w.mirrorMsg,
